@@ -49,6 +49,14 @@ CONSTS = [
     ("POOL_BACKOFF_START_MS", "crates/resolver/src/name_server_pool.rs", r"^\s*let mut backoff = Duration::from_millis\((\d+)\);", "try_send: first back-off sleep (ms)"),
     ("POOL_BACKOFF_LIMIT_MS", "crates/resolver/src/name_server_pool.rs", r"if !busy\.is_empty\(\) && backoff < Duration::from_millis\((\d+)\) \{", "try_send: back-off stops at (ms)"),
     ("POOL_BACKOFF_FACTOR", "crates/resolver/src/name_server_pool.rs", r"^\s*backoff \*= (\d+);", "try_send: back-off growth factor"),
+    # C13 (TSIG)
+    ("TSIG_ERR_BADSIG", "crates/proto/src/rr/rdata/tsig.rs", r"^\s*TsigError::BadSig => (\d+),", "u16::from(TsigError::BadSig)"),
+    ("TSIG_ERR_BADKEY", "crates/proto/src/rr/rdata/tsig.rs", r"^\s*TsigError::BadKey => (\d+),", "u16::from(TsigError::BadKey)"),
+    ("TSIG_ERR_BADTIME", "crates/proto/src/rr/rdata/tsig.rs", r"^\s*TsigError::BadTime => (\d+),", "u16::from(TsigError::BadTime)"),
+    ("TSIG_UNKNOWN_KEY_FUDGE", "crates/proto/src/rr/tsig.rs", r"TsigAlgorithm::HmacSha256,\s*self\.time,\s*(\d+),", "fudge of the unsigned BADKEY reply"),
+    ("OPCODE_UPDATE", "crates/proto/src/op/op_code.rs", r"^\s*OpCode::Update => (\d+),", "u8::from(OpCode::Update)"),
+    ("RCODE_REFUSED", "crates/proto/src/op/response_code.rs", r"^\s*ResponseCode::Refused => (\d+),", "u16::from(ResponseCode::Refused)"),
+    ("RCODE_NOTAUTH", "crates/proto/src/op/response_code.rs", r"^\s*ResponseCode::NotAuth => (\d+),", "u16::from(ResponseCode::NotAuth)"),
 ]
 
 
